@@ -14,6 +14,11 @@ vmpi::ExploreResult vx_explore(const Args& a, Recorder& rec, const VxConfig& cfg
     vmpi::ExploreCfg ec; ec.mpi = h.mpi; ec.workers = a.nshards > 1 ? std::max(1, 16 / a.nshards) : 16; { const char* w = getenv("VX_WORKERS"); if (w) ec.workers = atoi(w); }
     ec.bound = bound; ec.deadline_s = deadline_s; ec.max_exec = max_exec; ec.tmpdir = root_dir() + "/build/out/vx_tmp"; ec.label = property; ec.child_timeout_s = (property == "C16") ? 2 : 20;
     marker(property + " " + cfg.str());
+    {   // determinism self-check of the engine on this configuration: the default schedule executed twice gives the same observation trace
+        std::string t1, t2; std::vector<int> none; vmpi::replay_schedule(ec, h.body, h.oracle, h.reset, none, &t1); vmpi::replay_schedule(ec, h.body, h.oracle, h.reset, none, &t2);
+        if (t1 != t2) throw std::runtime_error("engine nondeterminism: the default schedule of " + cfg.str() + " gave two different observation traces: [" + t1 + "] vs [" + t2 + "]");
+        rec.counters["determinism_self_checks"]++;
+    }
     vmpi::ExploreResult R = vmpi::explore(ec, h.body, h.oracle, h.reset);
     rec.states += R.states; rec.transitions += R.transitions; rec.evaluations += R.executions; rec.traces += R.executions;
     if (!R.exhaustive) { rec.exhaustive = false; rec.note("not exhausted: " + cfg.str() + " (" + std::to_string(R.executions) + " executions)"); }
